@@ -22,7 +22,7 @@
                               inserted in another order). *)
 From Coq Require Import List NArith ZArith Bool Permutation.
 From SK Require Import lib.LGraph model.C01_Model model.C02_Model model.C09_Model
-  proof.C09_Canon proof.C09_Valid proof.C09_Balance proof.C09_Main proof.C09_Indep.
+  proof.C09_Canon proof.C09_Valid proof.C09_Balance proof.C09_Main proof.C09_Indep proof.C09_Indep2.
 Import ListNotations.
 
 (** 1. Canonicalising = relabelling both sides by ONE injective map f (canonical position on the reactant atoms, fresh
@@ -84,14 +84,18 @@ Print Assumptions C09_unbalanced_collision_refuted.
        injective p, atoms listed in any order, atom_map attributes rewritten) get THE SAME canonical reactant and product
        graphs up to node insertion order, PROVIDED (premise, last line) the graph canonicaliser is invariant, i.e. gives
        corresponding atoms the same canonical id (C08: nauty invariance holds when all atoms are distinguishable, wl only
-       when all WL colours differ; monitored by the oracle on every run), and every product atom has a reactant partner.
+       when all WL colours differ; monitored by the oracle on every run), and p keeps the relative order of the product
+       atoms WITHOUT reactant partner (they are numbered in the order of their input numbers; vacuous when every product
+       atom has a partner).
        Missing: (i) RDKit's writer is a function of the graph up to node order and its re-parse returns the graph
-       (oracle S2, monitored), (ii) partner-less product atoms are numbered in the order of their INPUT numbers, so with
-       two or more of them the result can depend on the numbering (monitored: clause canon-numbering-independent). *)
+       (oracle S2, monitored), (ii) the invariance premise is not discharged from C08 here, (iii) with two or more
+       partner-less product atoms an order-changing renumbering can change the result (monitored: clause
+       canon-numbering-independent; none in the corpora). *)
 Theorem C09_numbering_independent_partial :
   forall (G H G2' H2' Gc1 Gc2 : mgraph) (order1 order2 : list N) (p : N -> N),
-  parsed G -> parsed H -> (forall n, In n (node_ids H) -> In n (node_ids G)) -> (exists s, In s (node_ids H)) ->
-  (forall a b, p a = p b -> a = b) -> (forall n, In n (node_ids G) -> p n <> 0%N) ->
+  parsed G -> parsed H -> (exists s, In s (node_ids G) /\ In s (node_ids H)) ->
+  (forall a b, p a = p b -> a = b) -> (forall n, In n (node_ids G) \/ In n (node_ids H) -> p n <> 0%N) ->
+  (forall m n, In m (node_ids H) -> ~ In m (node_ids G) -> In n (node_ids H) -> ~ In n (node_ids G) -> (m <= n)%N -> (p m <= p n)%N) ->
   relabelled_by p G G2' -> relabelled_by p H H2' ->
   enumerates order1 G -> relabelled_by (sigma_of order1) G Gc1 ->
   enumerates order2 (set_amap G2') -> relabelled_by (sigma_of order2) (set_amap G2') Gc2 ->
@@ -100,13 +104,14 @@ Theorem C09_numbering_independent_partial :
     canonicalise_with Gc1 H = Some (set_amap Gc1, pairs1, set_amap Hc1) /\
     canonicalise_with Gc2 (set_amap H2') = Some (set_amap Gc2, pairs2, set_amap Hc2) /\
     same_upto_order (set_amap Gc2) (set_amap Gc1) /\ same_upto_order (set_amap Hc2) (set_amap Hc1).
-Proof. exact presentation_independent. Qed.
+Proof. exact presentation_independent_mono. Qed.
 Print Assumptions C09_numbering_independent_partial.
 
-(** fixed point, same restrictions: canonicalising the canonical graphs returns them (up to node insertion order)
-    provided the graph canonicaliser maps every canonical reactant id to itself (premise; C08 + monitored). *)
+(** fixed point (balanced or not, partner-less product atoms included): canonicalising the canonical graphs returns
+    them (up to node insertion order) provided the graph canonicaliser maps every canonical reactant id to itself
+    (premise; C08 + monitored).  Missing for the string-level claim: the RDKit writer / parser contract S2. *)
 Theorem C09_fixed_point_partial : forall (G H Gc1 : mgraph) (order1 : list N),
-  parsed G -> parsed H -> (forall n, In n (node_ids H) -> In n (node_ids G)) -> (exists s, In s (node_ids H)) ->
+  parsed G -> parsed H -> (exists s, In s (node_ids G) /\ In s (node_ids H)) ->
   enumerates order1 G -> relabelled_by (sigma_of order1) G Gc1 ->
   exists (pairs1 : list (N * N)) (Gc1' Hc1' : mgraph),
     canonicalise_with Gc1 H = Some (Gc1', pairs1, Hc1') /\
@@ -116,7 +121,7 @@ Theorem C09_fixed_point_partial : forall (G H Gc1 : mgraph) (order1 : list N),
       exists (pairs2 : list (N * N)) (Hc2' : mgraph),
         canonicalise_with Gc2 Hc1' = Some (set_amap Gc2, pairs2, Hc2') /\
         same_upto_order (set_amap Gc2) Gc1' /\ same_upto_order Hc2' Hc1'.
-Proof. exact fixed_point. Qed.
+Proof. exact fixed_point_gen. Qed.
 Print Assumptions C09_fixed_point_partial.
 
 (** 3. The validator is exact: the matcher the correspondence runs answers true iff the two ITS graphs (resp. the two
